@@ -314,7 +314,7 @@ impl StreamsState {
         }
 
         let (new_bytes, closed) =
-            rs.ingest(frame, payload_len, self.data_recvd, self.local_max_data)?;
+            rs.ingest(frame, payload_len, self.data_recvd, self.sent_max_data.into())?;
         self.data_recvd = self.data_recvd.saturating_add(new_bytes);
 
         if !rs.stopped {
@@ -368,7 +368,7 @@ impl StreamsState {
             error_code,
             final_offset,
             self.data_recvd,
-            self.local_max_data,
+            self.sent_max_data.into(),
         )? {
             // Redundant reset
             return Ok(ShouldTransmit(false));
